@@ -41,13 +41,20 @@ def gen_cases(chk, binp):
 
     def add(**kw):
         c = dict(id="l%d" % len(cases), bin=binp, kind="start", phase="steps", atStep=1, delayUs=0, nsteps=3,
-                 stepMs=120, handMs=150, injectA="", injectB="", bStepMs=0, thirdAfterMs=0)
+                 stepMs=120, handMs=150, injectA="", injectB="", bStepMs=0, thirdAfterMs=0, retention=-1, backdateH=0)
         c.update(kw)
         cases.append(c)
 
     # the interleaving that made both run before fix 5f302ab (both probes before either bind; A binds first, B unlinks
     # A's socket and binds), forced with the same strace delays: now the lock refuses the later one
     add(phase="together", nsteps=2, injectA="connect:delay_exit=150000:when=1", injectB="connect:delay_exit=450000:when=1", tag="witness")
+    # an active run whose current step has been quiet for longer than the DAG's history retention (its history file's
+    # mtime is backdated, together with everything else in the DAG's data directory), then a second start / retry:
+    # the refused command must not trim the history. histRetentionDays 0 = the loader's default (30 days).
+    for kind, combos in (("start", [(1, 25), (0, 31 * 24), (0, 25), (1, 49), (2, 25)]), ("retry", [(1, 25), (0, 31 * 24)])):
+        for ret, hours in combos * (1 if quick else 3):
+            add(kind=kind, phase="steps", nsteps=2, atStep=2, stepMs=400, handMs=30, delayUs=rng.randint(20000, 90000),
+                retention=ret, backdateH=hours, tag="quiet-longer-than-retention")
     # the lock holder held between taking the lock and its probe
     for _ in range(2):
         add(phase="prelisten", nsteps=2, delayUs=rng.randint(20000, 120000), injectA="flock:delay_exit=%d:when=1" % rng.randint(150000, 300000), tag="lock-window")
@@ -139,6 +146,11 @@ def abstract_trace(c, r):
         for i, e in enumerate(evs):
             t = eff_t(c, e)
             if e["ev"] == "response":
+                continue
+            if e["ev"] == "histunlink":
+                # a history file removed by a process that ends up refused: a history operation the model does not allow there
+                if unl == 0 and (lockfail or answered) and e["res"] == "0":
+                    acts.append((t, ag, "removeOld"))
                 continue
             if e["ev"] == "flock":
                 acts += [(t, ag, "setup1"), (t, ag, "precond1"), (t, ag, "lock")]
@@ -261,6 +273,15 @@ def monitor(chk, c, r):
             out.append(("C16:active-run-second-%s-recorded-a-run" % k, "a refused %s left a history record" % k))
         if any(e["ev"] in ("unlinkat", "bind") for e in evs):
             out.append(("C16:active-run-second-%s-touched-socket" % k, "a refused %s unlinked / bound the socket path" % k))
+        if x == "B":
+            # the history store is as it was: no file of the active (or an earlier) run removed, every run still found by the real store
+            norm = lambda f: f.replace("_c.dat", ".dat")
+            gone = sorted({norm(f) for f in r.get("histBeforeB") or []} - {norm(f) for f in r.get("histAfterB") or []})
+            lost = sorted(q for q, ok in (r.get("storeByReq") or {}).items() if not ok)
+            if gone or lost or any(e["ev"] == "histunlink" and e["res"] == "0" for e in evs):
+                out.append(("C16:active-run-second-%s-removed-history" % k,
+                            "a refused %s removed history files %s (retention %s, files last written %sh ago); runs no longer found by the store: %s" % (
+                                k, gone, c.get("retention"), c.get("backdateH"), lost)))
         # the active run is left undisturbed
         oh = per[o]
         # (only judged when the first run's endpoint was certainly still open when the harness probed it)
@@ -349,6 +370,14 @@ def probe_position(c, r, x="B", o="A"):
     return where + " -> " + how
 
 
+def _norm(r):
+    """lists that the harness leaves null when empty"""
+    for k in ("events", "markers", "hist", "histBeforeB", "histAfterB", "storeReqs"):
+        if r.get(k) is None:
+            r[k] = []
+    return r
+
+
 def run_harness(binh, cases, par=None):
     env = dict(os.environ)
     if par:
@@ -357,7 +386,7 @@ def run_harness(binh, cases, par=None):
                        stderr=subprocess.PIPE, text=True, timeout=3000, env=env)
     if p.returncode != 0:
         raise RuntimeError("lock harness failed: " + p.stderr[-2000:])
-    return [json.loads(l) for l in p.stdout.strip().split("\n")]
+    return [_norm(json.loads(l)) for l in p.stdout.strip().split("\n")]
 
 
 def correspond(c, r):
